@@ -7,3 +7,4 @@ import json, jsonschema
 jsonschema.validate(json.load(open('/verif/MANIFEST.json')), json.load(open('/root/.vp/MANIFEST.schema.json')))
 print("MANIFEST ok")
 PY
+c=$(python3 /verif/tools/fingerprint.py); [ "$c" = "[]" ] || echo "NOTE: /repo differs from notes/source_fingerprints.json: $c (run tools/fingerprint.py --update after a fix: commit)"
